@@ -276,6 +276,7 @@ pub struct RunResult {
     pub signature: u64,
     /// per claimed property (index into PROPS): did this run hit the property's witness probe?
     pub witness: [bool; 11],
+    #[allow(dead_code)]
     pub executed_events: usize,
 }
 
